@@ -1616,3 +1616,41 @@ package decimal128
 //@ loop 9: decreases exp
 //@ waive cover at "for bigsig.BitLen() > 32*8 {": coefficients longer than 32 bytes are outside this contract (requires len(sig) <= 32)
 //@ props C14 C20
+
+// ---------------------------------------------------------------------------
+// QuoRemWithMode (C03), partial: the special-operand table, zero dividend, and |d| < |o| (quotient 0,
+// remainder d). The long division itself (quotient digits, remainder continuation) is outside this
+// contract: "limit" marks the point, and every postcondition is proved vacuous beyond it.
+// ---------------------------------------------------------------------------
+
+//@ func Decimal.QuoRemWithMode
+//@ uses rssteps=1,4,19 rsmono=0,1,36
+//@ returns (q, r)
+//@ logical Vd real, Vo real
+//@ requires !special(d) ==> Vd >= 0 && rs(Vd, bexp(d)) == coef(d)
+//@ requires !special(o) ==> Vo >= 0 && rs(Vo, bexp(o)) == coef(o)
+//@ mention rs(Vd, bexp(o)) + rs(Vo, bexp(d))
+//@ ensures isnan(d) ==> q == d && r == d
+//@ ensures !isnan(d) && isnan(o) ==> q == o && r == o
+//@ ensures isinf(d) && isinf(o) ==> isnan(q) && q == r && !sign(q) && hi(q) == 0x7c00000000000000
+//@    && lo(q) == payloadOpQuoRem + 256*ite(sign(d), payloadValNegInfinite, payloadValPosInfinite) + 65536*ite(sign(o), payloadValNegInfinite, payloadValPosInfinite)
+//@ ensures isinf(d) && !special(o) ==> isinf(q) && sign(q) == (sign(d) != sign(o)) && isnan(r) && !sign(r)
+//@    && lo(r) == payloadOpQuoRem + 256*ite(sign(d), payloadValNegInfinite, payloadValPosInfinite)
+//@       + 65536*ite(coef(o) == 0, ite(sign(o), payloadValNegZero, payloadValPosZero), ite(sign(o), payloadValNegFinite, payloadValPosFinite))
+//@ ensures !special(d) && isinf(o) ==> !special(q) && coef(q) == 0 && bexp(q) == 0 && sign(q) == (sign(d) != sign(o)) && r == d
+//@ ensures !special(d) && !special(o) && coef(o) == 0 && coef(d) == 0 ==> isnan(q) && q == r && !sign(q)
+//@    && lo(q) == payloadOpQuoRem + 256*ite(sign(d), payloadValNegZero, payloadValPosZero) + 65536*ite(sign(o), payloadValNegZero, payloadValPosZero)
+//@ ensures !special(d) && !special(o) && coef(o) == 0 && coef(d) != 0 ==> isinf(q) && sign(q) == (sign(d) != sign(o)) && isnan(r) && !sign(r)
+//@    && lo(r) == payloadOpQuoRem + 256*ite(sign(d), payloadValNegFinite, payloadValPosFinite) + 65536*ite(sign(o), payloadValNegZero, payloadValPosZero)
+//@ ensures !special(d) && !special(o) && coef(o) != 0 && coef(d) == 0 ==> !special(q) && coef(q) == 0 && sign(q) == (sign(d) != sign(o)) && !special(r) && coef(r) == 0 && sign(r) == sign(d)
+//@ ensures !special(d) && !special(o) && coef(o) != 0 && coef(d) != 0 && bexp(d) < bexp(o) && Vd < Vo ==> !special(q) && coef(q) == 0 && bexp(q) == 0 && sign(q) == (sign(d) != sign(o)) && r == d
+//@ loop 1: invariant rs(Vo, bexp(d) - exp) == u128(oSig) && exp <= 0 && u128(oSig) != 0 && exp >= bexp(d) - bexp(o)
+//@ loop 1: decreases 0 - exp
+//@ loop 2: invariant rs(Vo, bexp(d) - exp) == u128(oSig) && exp <= 0 && u128(oSig) != 0 && exp >= bexp(d) - bexp(o)
+//@ loop 2: decreases 0 - exp
+//@ loop 3: invariant dExp - exp == bexp(o) && exp >= 0 && exp <= 12287
+//@ loop 3: decreases exp
+//@ loop 4: invariant dExp - exp == bexp(o) && exp >= 0 && exp <= 12287
+//@ loop 4: decreases exp
+//@ limit before "qexp := exp + exponentBias"
+//@ props C03 C15 C20
